@@ -1172,8 +1172,11 @@ class WorkflowConductor(object):
     def get_task_context(self, ctx_idxs):
         ctx = {}
 
+        # Merge copies so that the nested values of the stored contexts are never written to.
         for ctx_idx in ctx_idxs:
-            ctx = dict_util.merge_dicts(ctx, self.workflow_state.contexts[ctx_idx], overwrite=True)
+            ctx = dict_util.merge_dicts(
+                ctx, json_util.deepcopy(self.workflow_state.contexts[ctx_idx]), overwrite=True
+            )
 
         return ctx
 
